@@ -7,7 +7,7 @@ use std::collections::BTreeMap;
 
 type T = BTreeMap<String, i64>;
 
-pub const KINDS: [(&str, &str); 17] = [
+pub const KINDS: [(&str, &str); 18] = [
     ("map", "a: 1\n"),
     ("map2", "b: 2\nc: 3\n"),
     ("empty", ""),
@@ -26,6 +26,8 @@ pub const KINDS: [(&str, &str); 17] = [
     ("unterminated_quote", "\"abc\n"),
     // a complete flow root node followed by more content: not one document, and no `...` allows ignoring the rest
     ("trailing_content_after_flow_root", "{a: 1}\nb: 2\n"),
+    // says it is a string: not a null document (for the mapping target it is a type error, not nothing)
+    ("tagged_string_null", "!!str null\n"),
 ];
 
 #[derive(Clone, Debug, PartialEq)]
@@ -369,7 +371,7 @@ pub fn run(ctx: &Ctx) -> i32 {
     }
     let meta = Meta {
         level: "model_checking",
-        rule: "stateright BFS over all document histories (sequences of 17 document kinds) up to the length bound; each state is judged by running the real library on the rendered stream under 3 separator modes through from_multiple, from_slice_multiple, read (drained with a hard item cap), from_str and from_reader; non-trivial = streams of two or more documents".into(),
+        rule: "stateright BFS over all document histories (sequences of 18 document kinds) up to the length bound; each state is judged by running the real library on the rendered stream under 3 separator modes through from_multiple, from_slice_multiple, read (drained with a hard item cap), from_str and from_reader; non-trivial = streams of two or more documents".into(),
         exhaustive: true,
         bounds: json!({"max_stream_len": max_len, "kinds": KINDS.len()}),
         assumptions: vec!["per-document oracle = the single-document entry point applied to the document's own text; syntax-level = the raw parser rejects the document on its own".into()],
